@@ -19,17 +19,24 @@
 //!   `InternalConnectionError::got_frame_error` maps the frame error).
 //! * `set enc <id:val,...>`: real `Settings::insert` calls, then
 //!   `WriteBuf::from(UniStreamHeader::Control(settings))` and the decode of what was written:
-//!   `ins <result,...> ent <..> get0 <get(SettingId(0))> hdr <bytes|panic> rt <ent ..|err:kind>`.
+//!   `ins <result,...> ent <..> get0 <get(SettingId(0))> hdr <bytes|panic> view <id:val,..|-|malformed> rt <ent ..|err:kind>`
+//!   (`view` = the header bytes read by the plain varint-pair reader of this file, sorted by identifier).
 //! * `set cell <payload1> <payload2>`: the write-once settings cell of `SharedState`.
-//! * `set apply <role> <payload> <cut>` / `set apply2 <role> <payload1> <payload2>`: a peer
+//! * `set apply <role> <payload> <cut> [cfg keys]` / `set apply2 <role> <payload1> <payload2> [cfg keys]`: a peer
 //!   control stream (`00 04 len payload`, delivered in two chunks when `0 < cut < total`) fed into
 //!   a real connection driven by `accept()` / `poll_close()`; what `settings()` reports
 //!   before/between/after (`mfs/wt/ec/dg/wts`) and `open` or `closed <CODE>` as the peer sees it.
-//! * `set applyq <role> <payload> <cut> <pre1,pre2,..>`: as `set apply`, but the peer has opened other
-//!   unidirectional streams BEFORE its control stream, each with an incomplete stream header (`-` = no
+//!   `[cfg keys]` = the LOCAL configuration the connection is built with: the `set cfg` keys `mfs= wt= ec= dg=
+//!   wts= grease=` (no seed / gid: the own control stream is not printed; grease is OFF unless `grease=1`); a
+//!   configuration `build` refuses answers `setup-failed`.
+//! * `set applyq <role> <payload> <cut> <pre1,pre2,..> [cfg keys]`: as `set apply`, but the peer has opened other
+//!   unidirectional streams BEFORE its control stream: with an incomplete stream header (`-` = no
 //!   byte yet, `40` = first byte of a two-byte type, `4054` / `54` / `01` = WebTransport / push type
-//!   without the session / push id): they sit in front of the control stream in
-//!   `pending_recv_streams` and answer `Pending`.  A header that is complete is `bad-op`.
+//!   without the session / push id) - they sit in front of the control stream in `pending_recv_streams` and
+//!   answer `Pending` - or with a COMPLETE header and nothing behind it, of type 02 / 03 (QPACK encoder / decoder
+//!   stream), 0x54 + session id (WebTransport) or anything unknown (grease 0x21, ..): they are resolved in the same
+//!   pass as the control stream behind them.  A complete control (00) or push (01 + id) header, or bytes behind a
+//!   complete header, are `bad-op`.
 //! * `set cfgw <role> <k1,k2,..> [cfg keys as for set cfg]`: `set cfg` under back-pressure: every
 //!   stream starts without write credit; after the first poll of `build` the control stream is
 //!   granted `k1`, `k2`, ... bytes (cycling), one poll of `build` after each grant, at most
@@ -252,6 +259,48 @@ fn parse_cfg(w: &[&str]) -> Option<Cfg> {
     Some(c)
 }
 
+/// the local configuration of a `set apply*` line: `set cfg` keys without seed / gid, grease off unless `grease=1`
+fn parse_local_cfg(role: &str, w: &[&str]) -> Option<Cfg> {
+    let mut c = Cfg { mfs: None, wt: None, ec: None, dg: None, wts: None, grease: None, seed: None, gid: None };
+    let pb = |v: &str| match v {
+        "0" => Some(false),
+        "1" => Some(true),
+        _ => None,
+    };
+    for t in w {
+        let (k, v) = t.split_once('=')?;
+        match k {
+            "mfs" => c.mfs = Some(v.parse().ok()?),
+            "wts" => c.wts = Some(v.parse().ok()?),
+            "wt" => c.wt = Some(pb(v)?),
+            "ec" => c.ec = Some(pb(v)?),
+            "dg" => c.dg = Some(pb(v)?),
+            "grease" => c.grease = Some(pb(v)?),
+            _ => return None,
+        }
+    }
+    if role == "client" && (c.wt.is_some() || c.wts.is_some()) {
+        return None;
+    }
+    if c.grease.is_none() {
+        c.grease = Some(false);
+    }
+    Some(c)
+}
+
+/// one token for the control stream header as the plain reader sees it
+fn view_tok(ctrl: &[u8]) -> String {
+    let v = peer_view(ctrl);
+    let t: Vec<&str> = v.split(' ').collect();
+    if t.len() < 2 {
+        return "-".into();
+    }
+    if t[1] == "malformed" {
+        return "malformed".into();
+    }
+    t[1..].chunks(2).map(|c| format!("{}:{}", c[0], c.get(1).unwrap_or(&"?"))).collect::<Vec<_>>().join(",")
+}
+
 fn cx_poll<T>(f: impl FnOnce(&mut Context<'_>) -> T) -> T {
     let w = futures_util::task::noop_waker();
     let mut cx = Context::from_waker(&w);
@@ -372,6 +421,20 @@ fn incomplete_uni_header(b: &[u8]) -> bool {
     }
 }
 
+/// a stream `set applyq` may put in front of the control stream: header incomplete, or complete with nothing behind it
+/// and neither a control nor a push stream
+fn allowed_pre(b: &[u8]) -> bool {
+    if incomplete_uni_header(b) {
+        return true;
+    }
+    match rd_varint(b) {
+        None => false,
+        Some((0x00, _)) | Some((0x01, _)) => false,
+        Some((0x54, rest)) => matches!(rd_varint(rest), Some((_, r)) if r.is_empty()),
+        Some((_, rest)) => rest.is_empty(),
+    }
+}
+
 /// what the peer sees after `build`: every locally opened unidirectional stream; the control
 /// stream is the first one.
 fn setup_report<T>(net: &NetRef, server: bool, r: Poll<Result<T, h3::error::ConnectionError>>) -> String {
@@ -399,14 +462,13 @@ enum Conn {
 }
 
 impl Conn {
-    fn new(role: &str, net: &NetRef) -> Option<Conn> {
-        let c = Cfg { mfs: None, wt: None, ec: None, dg: None, wts: None, grease: Some(false), seed: None, gid: None };
+    fn new(role: &str, net: &NetRef, c: &Cfg) -> Option<Conn> {
         match role {
-            "server" => match build_server(net, &c) {
+            "server" => match build_server(net, c) {
                 Poll::Ready(Ok(x)) => Some(Conn::Server(x)),
                 _ => None,
             },
-            "client" => match build_client(net, &c)? {
+            "client" => match build_client(net, c)? {
                 Poll::Ready(Ok(x)) => Some(Conn::Client(x)),
                 _ => None,
             },
@@ -536,7 +598,7 @@ pub fn handle(w: &[&str]) -> String {
                 } else {
                     "no-control-type".into()
                 };
-                format!("hdr {} rt {}", to_hex(&out), rt)
+                format!("hdr {} view {} rt {}", to_hex(&out), view_tok(&out), rt)
             });
             format!("{} {}", ins, if hdr == "panic" { "hdr panic".to_string() } else { hdr })
         }
@@ -553,14 +615,15 @@ pub fn handle(w: &[&str]) -> String {
                 format!("init={} first={} second={}", r0, r1, r2)
             })
         }
-        ["set", "apply", role, h, cut] => {
+        ["set", "apply", role, h, cut, rest @ ..] => {
             let (Some(p), Ok(cut)) = (parse_hex(h), cut.parse::<usize>()) else { return "bad-op".into() };
             if *role != "server" && *role != "client" {
                 return "bad-op".into();
             }
+            let Some(lc) = parse_local_cfg(role, rest) else { return "bad-op".into() };
             guarded(|| {
                 let net = Net::new(*role == "server");
-                let Some(mut conn) = Conn::new(role, &net) else { return "setup-failed".into() };
+                let Some(mut conn) = Conn::new(role, &net, &lc) else { return "setup-failed".into() };
                 let mut bytes = vec![0u8];
                 bytes.extend_from_slice(&settings_frame(&p));
                 let before = conn.rec();
@@ -579,19 +642,20 @@ pub fn handle(w: &[&str]) -> String {
                 format!("before={} mid={} after={} {}", before, mid, after, closed(&net))
             })
         }
-        ["set", "applyq", role, h, cut, pre] => {
+        ["set", "applyq", role, h, cut, pre, rest @ ..] => {
             let (Some(p), Ok(cut)) = (parse_hex(h), cut.parse::<usize>()) else { return "bad-op".into() };
             if *role != "server" && *role != "client" {
                 return "bad-op".into();
             }
             let pres: Option<Vec<Vec<u8>>> = pre.split(',').map(parse_hex).collect();
             let Some(pres) = pres else { return "bad-op".into() };
-            if pres.is_empty() || pres.len() > 8 || !pres.iter().all(|b| incomplete_uni_header(b)) {
+            if pres.is_empty() || pres.len() > 8 || !pres.iter().all(|b| allowed_pre(b)) {
                 return "bad-op".into();
             }
+            let Some(lc) = parse_local_cfg(role, rest) else { return "bad-op".into() };
             guarded(|| {
                 let net = Net::new(*role == "server");
-                let Some(mut conn) = Conn::new(role, &net) else { return "setup-failed".into() };
+                let Some(mut conn) = Conn::new(role, &net, &lc) else { return "setup-failed".into() };
                 let mut bytes = vec![0u8];
                 bytes.extend_from_slice(&settings_frame(&p));
                 let before = conn.rec();
@@ -648,14 +712,15 @@ pub fn handle(w: &[&str]) -> String {
                 _ => "bad-op".into(),
             }
         }
-        ["set", "apply2", role, h1, h2] => {
+        ["set", "apply2", role, h1, h2, rest @ ..] => {
             let (Some(p1), Some(p2)) = (parse_hex(h1), parse_hex(h2)) else { return "bad-op".into() };
             if *role != "server" && *role != "client" {
                 return "bad-op".into();
             }
+            let Some(lc) = parse_local_cfg(role, rest) else { return "bad-op".into() };
             guarded(|| {
                 let net = Net::new(*role == "server");
-                let Some(mut conn) = Conn::new(role, &net) else { return "setup-failed".into() };
+                let Some(mut conn) = Conn::new(role, &net, &lc) else { return "setup-failed".into() };
                 let before = conn.rec();
                 let id = peer_control_id(role);
                 net.borrow_mut().peer_open(id);
